@@ -206,25 +206,8 @@ ADVISORY_SCHEMES = ("npm", "pypi", "maven", "gem", "golang", "nuget", "composer"
 PUNCT = list("._-+~:^!,") + list("_-.~+") + ["a", "0", "rc", "\u0663"]
 
 
-class _TooLong(BaseException):
-    pass
-
-
-def _limited(f, seconds=10.0):
-    """run f() in this process; a call that is still running after `seconds` is interrupted (pure-Python loops only: a
-    regular expression that backtracks for ever is the business of the child process of `_hang_screen`).  The timer
-    keeps firing, so that an `except:` inside the library cannot swallow the interruption for good."""
-    import signal
-
-    def onalarm(_sig, _frm):
-        raise _TooLong()
-    old = signal.signal(signal.SIGALRM, onalarm)
-    signal.setitimer(signal.ITIMER_REAL, seconds, 0.5)
-    try:
-        return f()
-    finally:
-        signal.setitimer(signal.ITIMER_REAL, 0)
-        signal.signal(signal.SIGALRM, old)
+_TooLong = common.TooLong
+_limited = common.limited
 
 
 def _near_pairs(ctx):
